@@ -136,4 +136,39 @@ def poolView (st : St) (rt : Nat) : List (NMap × Bool) := (st.pool rt).map (fun
 
 def onlyOf (r : Nat) (ops : List (Nat × Op)) : List (Nat × Op) := ops.filter (fun x => x.1 == r)
 
+/-! ### The compiler's side of the contract
+
+`allH` says: the stash bindVars targets was entered `extensible`.  Where that comes from, as coded:
+  (R1) when a direct call to `eval` is compiled (compiler_expr.go, compiledCallExpr.emitGetter, `calleeName == "eval"`)
+       the scope chain is walked outwards and the FIRST scope with `variable || isFunction()` gets `dynamic = true`
+       unless it is strict (`markEval`);
+  (R2) every function-entry instruction takes `extensible` from the `dynamic` flag of the scope whose stash it creates
+       and copies the names map iff `extensible` (Tie.extensible_sites, exec table guards `!($.extensible)`);
+  (R3) a dynamic scope always has a stash (`hasStash`: `if s.dynamic { return true }`);
+  (R4) the stash of a variable / function scope has `funcType != funcNone`, a block stash has `funcNone`.
+`rtChain` is the run-time scope chain these rules give for a compile-time chain. -/
+
+structure CScope where
+  isVar : Bool      -- scope.variable || scope.isFunction()
+  strict : Bool
+  dyn : Bool        -- scope.dynamic
+  stash : Bool      -- has a stash for another reason (needStash / dynLookup / arguments …)
+  mapId : Nat       -- the names map compiled for it
+  deriving DecidableEq, Repr
+
+/-- (R1) the loop run when a direct eval call is compiled with `cs` as scope chain (innermost first):
+`if !foundVar && (sc.variable || sc.isFunction()) { foundVar = true; if !sc.strict { sc.dynamic = true } }`. -/
+def markEval : List CScope → List CScope
+  | [] => []
+  | sc :: rest =>
+    if sc.isVar then (if sc.strict then sc else { sc with dyn := true }) :: rest
+    else sc :: markEval rest
+
+/-- (R2)–(R4): the stashes on the run-time chain while code of the innermost scope runs. -/
+def rtChain (cs : List CScope) : List Stash :=
+  cs.filterMap fun sc => if sc.dyn || sc.stash then some ⟨sc.mapId, sc.isVar, sc.isVar && sc.dyn⟩ else none
+
+/-- the first variable scope of a chain -/
+def firstVar (cs : List CScope) : Option CScope := cs.find? (·.isVar)
+
 end GojaModel.C16.Names
